@@ -19,7 +19,7 @@ DOC = SCHEMA(types=[TYPE("s", [MK("k")])], children=[MK("k"), K("j"), MSEC("s", 
 
 STEPS = [
     "%define a v1", "%define A v1", "%define a v2", "%define a", "%define b $a", "%define B $$a",
-    "%define b ${a}x", "%define c p  q", "%define 1a v1", "%define a-b v1", "%define b $c", "%define A \t v1",
+    "%define b ${a}x", "%define c p  q", "%define 1a v1", "%define a-b v1", "%define b $c", "%define A \t v1", "%define $b v1", "%define a $a",
     "k $a", "k $B", "k ${c}", "k ${A}", "k $$a", "k $a$b",
     "%include f1.conf", "%include sub/f2.conf",
 ]
